@@ -781,11 +781,17 @@ class MList:
         self.ctx = ctx
         self.id = ("mlist", next(MList._ids))
         ctx.store[self.id] = {"seq": seq}
+        self._frozen = seq
 
     @property
     def seq(self):
-        return self.ctx.store[self.id]["seq"]
+        d = self.ctx.store.get(self.id)
+        if d is None:
+            # object created on another path / before a restore (e.g. a cached class-level constant)
+            return self._frozen
+        return d["seq"]
 
     @seq.setter
     def seq(self, s):
-        self.ctx.store[self.id]["seq"] = s
+        self.ctx.store.setdefault(self.id, {})["seq"] = s
+        self._frozen = s
